@@ -3,6 +3,7 @@ import Bandit.Plugins.Shell
 import Bandit.Plugins.Misc
 import Bandit.Plugins.CryptoGen
 import Bandit.Plugins.Trojan
+import Bandit.Plugins.DjangoXss
 import Bandit.Gen.Bidi
 /-!
 # Assembling the test set (`BanditTestSet`)
@@ -14,7 +15,7 @@ open Plugins
 def pluginChecks (pc : PluginCfg) (fileName : Str) : List Check :=
   miscChecks pc fileName ++ shellChecks (ShellCfg.ofCfg (pc.get "shell_injection"))
     ++ cryptoChecks genCryptoTables pc
-    ++ trojanChecks Gen.bidiCharacters
+    ++ trojanChecks Gen.bidiCharacters ++ injectChecks pc
 
 /-- The test set for a filter `keep` on test IDs: plugins whose ID passes, plus the blacklist
 wrapper over the per-ID filtered tables (absent when nothing survives). -/
